@@ -47,6 +47,7 @@ def cases(tier):
             if st0 == 'exists': cs.append(('update', T, c, st0, 'absent')); cs.append(('set', T, c, st0, 'doc'))
         if haspath:      # the entity is new but its sidecar already holds a document (written through a sibling that differs by the file extension only)
             cs.append(('create', T, c, 'absent+doc', False)); cs.append(('create', T, c, 'absent+doc', True))
+            cs.append(('update', T, c, 'absent+doc', 'doc')); cs.append(('set', T, c, 'absent+doc', 'doc'))      # ... and an update of the new entity is still refused
     cs.append(('sidecar-lemma',))
     return cs
 
